@@ -18,9 +18,10 @@
      protocol", query tokens of HTTP protocols with the http method (no setting "allows" them),
      a token without expiry claim.
 
-   Layer 1 follows the code (GetTokenImpl, JWTImpl, HTTPImpl).  Known divergence of layer 1
-   from layer 2, kept out of the design check and decided on the real code only: a 301/303
-   answer with a Location is followed by net/http with a GET without body (RedirectToGet).   *)
+   Layer 1 follows the code (GetTokenImpl, JWTImpl, HTTPImpl).  A 301/303 answer with a
+   Location is NOT followed (net/http would turn it into a GET without body): the request is
+   rejected; a 307/308 answer is followed with the POST repeated (fix 03c85d2 in /repo; before
+   it layer 1 diverged from layer 2 on the behaviours RedirectToGet).                         *)
 EXTENDS VerifCommon, SequencesExt
 
 CONSTANTS Profiles,   \* subset of {"hstatus", "htoken", "jclass", "jsig", "jplace", "jexcl"}
@@ -184,8 +185,8 @@ HTTPImpl(c) ==
               [] c.beh = "s299"      -> [ok |-> TRUE,  log |-> <<post(299)>>]
               [] c.beh = "s300"      -> [ok |-> FALSE, log |-> <<post(300)>>]
               [] c.beh = "s301noloc" -> [ok |-> FALSE, log |-> <<post(301)>>]
-              [] c.beh = "s301get"   -> [ok |-> TRUE,  log |-> <<post(301), [method |-> "GET", status |-> 200, body |-> NoBody]>>]
-              [] c.beh = "s303get"   -> [ok |-> TRUE,  log |-> <<post(303), [method |-> "GET", status |-> 200, body |-> NoBody]>>]
+              [] c.beh = "s301get"   -> [ok |-> FALSE, log |-> <<post(301)>>]
+              [] c.beh = "s303get"   -> [ok |-> FALSE, log |-> <<post(303)>>]
               [] c.beh = "s307post"  -> [ok |-> TRUE,  log |-> <<post(307), post(200)>>]
               [] c.beh = "s401"      -> [ok |-> FALSE, log |-> <<post(401)>>]
               [] c.beh = "s500"      -> [ok |-> FALSE, log |-> <<post(500)>>]
@@ -230,8 +231,8 @@ InField(t, tok) == Rq(t[1], t[2], t[3], "", None, tok, <<>>, <<>>, FALSE)
 
 Sigs1  == IF Big THEN {"rs256", "es256", "tampered"} ELSE {"rs256", "tampered"}
 Isss   == {"iss1", "other", ""}
-Auds   == {AudStr("aud1"), AudStr("other"), AudNone, AudList(<<"x", "aud1">>)}
-          \cup (IF Big THEN {AudList(<<"x", "y">>), AudList(<<>>)} ELSE {})
+Auds   == {AudStr("aud1"), AudStr("other"), AudList(<<"x", "aud1">>)}
+          \cup (IF Big THEN {AudNone, AudList(<<"x", "y">>), AudList(<<>>)} ELSE {})
 Times  == {"ok", "expired", "notyet"} \cup (IF Big THEN {"noexp"} ELSE {})
 Forms1 == {"array", "string", "missing"}
 FormsAll == {"array", "string", "missing", "number", "object", "badstring", "null", "stringnumber"}
@@ -249,7 +250,7 @@ JSigCases ==
         sg \in SigClasses, tm \in {"ok", "noexp", "expired"}, fm \in FormsAll, pl \in {"all", "readcam"}}
 JPlaceCases ==
     {Case("jplace", JCfg("", "", "none", inq), Rq(t[1], t[2], t[3], u, p, k, qt, qj, FALSE), "") :
-        inq \in {"nil", "true", "false"}, t \in ProtoTargets, u \in {"", "alice"},
+        inq \in {"nil", "true", "false"}, t \in ProtoTargets, u \in (IF Big THEN {"", "alice"} ELSE {"alice"}),
         p \in {None, Good, Bad, Text("plainpw")}, k \in {None, Good, Bad},
         qt \in {<<>>, <<Good>>, <<Bad>>, <<Good, Bad>>}, qj \in {<<>>, <<Good>>, <<Bad>>}}
 JExclCases ==
@@ -270,14 +271,13 @@ Eval == /\ ~done /\ done' = TRUE /\ UNCHANGED c
 Next == Eval
 Spec == Init /\ [][Next]_vars
 
-\* layer 1 |= layer 2 (except the redirect divergence, which is decided on the real code only)
+\* layer 1 |= layer 2
 ImplSatisfiesProp ==
     done => IF c.cfg.method = "jwt" THEN res.ok \in JWTAdmit(c)
-            ELSE c.beh \notin RedirectToGet => HTTPObsOK(c, RenderText(c.rq), res.ok, res.log)
-\* the divergence is real at design level: layer 1 admits although no POST was answered 2xx
+            ELSE HTTPObsOK(c, RenderText(c.rq), res.ok, res.log)
+\* a redirect that would drop the request body never admits
 RedirectDiverges ==
-    (done /\ c.cfg.method = "http" /\ c.beh \in RedirectToGet /\ ~Excluded(c))
-        => (res.ok /\ ~HTTPObsOK(c, RenderText(c.rq), res.ok, res.log))
+    (done /\ c.cfg.method = "http" /\ c.beh \in RedirectToGet /\ ~Excluded(c)) => ~res.ok
 
 EmitCases == done => Emit("CASE", [c |-> c, l1ok |-> res.ok])
 ASSUME Emit("PERMS", [n \in PermNames |-> PermsOf(n)])
